@@ -60,7 +60,7 @@ REGISTRY["C02"] = ptg("C02", ["prop=2", "nranks=1"], 1)
 REGISTRY["C16"] = ptg("C16", ["prop=16", "nranks=1", "again_pct=40"], 1, "; bodies return AGAIN 1-5 times for 40% of the instances")
 REGISTRY["C05"] = ptg("C05", ["prop=5"], 4, progs=PTG_ALL + [("mcast", "dynamic-hash-table"), ("mcast", "index-array")], bounds_extra= "; 1-4 ranks, runtime_comm_coll_bcast in {default,0,1,2}, short_limit, aggregate, thread_multiple, simulated network adversities", engine="simcore-L2")
 REGISTRY["C15"] = ptg("C15", ["prop=15", "nranks=1", "hist=15"], 1, "; compositions of 1-20 taskpools (crossing the realloc boundary at 16), optionally next to an independent taskpool")
-REGISTRY["C06"] = ptg("C06", ["prop=6", "nranks=1", "hist=6"], 1, "; API histories of 1-4 start/wait epochs with 1-3 PTG taskpools each, added before or after start or from a completion callback, parsec_context_test and parsec_taskpool_wait in between")
+REGISTRY["C06"] = ptg("C06", ["prop=6", "nranks=1", "hist=6"], 1, "; API histories of 1-4 start/wait epochs with 1-3 PTG taskpools each, added before or after start or from a completion callback, parsec_context_test and parsec_taskpool_wait in between; plus the DTD harness (as C03, 1 rank) with the wait oracle: parsec_taskpool_wait / parsec_context_wait return only after every task inserted before has completed, insert / wait / insert / wait epochs through parsec_dtd_taskpool_leave_wait", also=["C03"])
 PTG_DYN = [(p, m + "+dyn") for p in ("chain", "branch", "wave", "gather", "newnull", "startup", "mcast", "alt", "ctldata") for m in ("dynamic-hash-table",)] + [("steps", "index-array+dyn")]
 REGISTRY["C11"] = ptg("C11", ["prop=11"], 5, "; programs compiled with ptgpp --dynamic-termdet (real four-counter module, real remote_dep message accounting, wave messages over simmpi), 1-5 ranks; "
                       "oracle at every termination callback: no task pending anywhere, no application message in flight; every rank detects termination exactly once", progs=PTG_DYN, engine="simcore-L2")
